@@ -181,3 +181,51 @@ Theorem C15_existing_id_refused : forall c s t k, (k < nslots c)%nat -> key (idx
   (pcs s t = PRecheck -> step c s (Step t) = Some (set_pc s t (PUnlockErr E_EXISTS))).
 Proof. exact existing_id_refused. Qed.
 Print Assumptions C15_existing_id_refused.
+
+(* ------------------------------------------------------------------ the expiry sweep inside SetupNewUser (full table)
+   A registration that sees no free slot runs tryCleanUser before it takes the semaphore: every account from uid 2 on
+   whose distance [now] - LastLogin, taken in int32 and in minutes, exceeds its keep time by more than
+   CLEAN_USER_EXPIRE_RANGE_MIN is killed (index entry and .PASSWDS record emptied) and its slot is handed to the new
+   request. [now] is the clock of the sweeping process, LastLogin was stored by another request: nothing orders them.
+   [live now r] = the stamp of r lies less than SPARE_SECONDS (182.5 days + 30 minutes) before [now] OR AFTER it
+   (down to now - stamp = -2^31). These statements are about the table function [sweep] and the sequential machine
+   [sw_step] of Model/C15.v (what op 6 of the driver is validated against); the sweep is not an action of the
+   interleaving relation [run] above. *)
+
+(* no account whose stamp is recent - or later than the clock that judges it - is ever killed, whatever its id and level *)
+Theorem C15_sweep_spares_live : forall now id lv ll,
+  -2147483648 <= now - ll < SPARE_SECONDS -> sweep_kills now id lv ll = false.
+Proof. exact sweep_spares. Qed.
+Print Assumptions C15_sweep_spares_live.
+
+(* the slot of a live account survives a sweep, whatever the rest of the table holds; the sweep never moves or changes
+   an account: slot by slot the table is what it was, or free *)
+Theorem C15_sweep_keeps_live_slot : forall now t k,
+  (live now (nth k t srec_empty) -> nth k (sweep now t) srec_empty = nth k t srec_empty)
+  /\ (nth k (sweep now t) srec_empty = nth k t srec_empty \/ nth k (sweep now t) srec_empty = srec_empty)
+  /\ length (sweep now t) = length t.
+Proof. intros now t k. split; [apply sweep_keeps_live|split; [apply sweep_only_frees|apply sweep_length]]. Qed.
+Print Assumptions C15_sweep_keeps_live_slot.
+
+(* on a table of live accounts the sweep is the identity - so the step that leaves reg.checked changes nothing, a full
+   table stays full, and the request is refused instead of being given the slot of a success *)
+Theorem C15_sweep_identity_on_live : forall now t, Forall (live now) t ->
+  sweep now t = t
+  /\ (sw_free t 0 = None -> sw_free (sweep now t) 0 = None)
+  /\ (forall ids lls stale pcs th v tab' stale' pcs', nth th pcs (9, 0) = (1, v) ->
+        sw_step now ids lls (t, stale, pcs) th = Some (tab', stale', pcs') -> tab' = t).
+Proof.
+  intros now t L. split; [apply sweep_identity; exact L|split; [apply sw_full_stays_full; exact L|]].
+  intros ids lls stale pcs th v tab' stale' pcs' P E. exact (sw_step_checked_keeps now ids lls t stale pcs th tab' stale' pcs' v L P E).
+Qed.
+Print Assumptions C15_sweep_identity_on_live.
+
+(* non-vacuity: an unregistered account last seen 200 days ago is killed; one whose stamp is 5 seconds LATER than the
+   sweeping clock, or 100 years later in int32 wrap-around terms, is not *)
+Theorem C15_sweep_examples :
+  sweep_kills 1790000000 [97; 98; 99] 7 (1790000000 - 200 * 86400) = true
+  /\ sweep_kills 1790000000 [97; 98; 99] 7 (1790000000 + 5) = false
+  /\ sweep 1790000000 [([115], 7, 0); ([97], 7, 1790000005); ([98], 7, 1790000000 - 200 * 86400)]
+     = [([115], 7, 0); ([97], 7, 1790000005); srec_empty].
+Proof. vm_compute. repeat split. Qed.
+Print Assumptions C15_sweep_examples.
